@@ -2,7 +2,7 @@
    Only statements, closed by `exact`.  The full-strength statements that are not (yet) proved are the
    Definitions C11_*_statement of Proofs/Idna_Hyp.v; see theorem_notes in tools/props_d/C11.py. *)
 From RU Require Import Base.Prelude Base.Utf8 Base.U32_c13 Gen.Tables Model.Punycode Model.Uts46
-  Proofs.Idna_Sim Proofs.Idna_Api Proofs.Idna_Known Proofs.Idna_Hyp.
+  Proofs.Idna_Sim Proofs.Idna_Api Proofs.Idna_Known Proofs.Idna_Hyp Proofs.Idna_Tables.
 
 (* the core: for EVERY adapter, the fail-fast run of process_inner returns early exactly when the
    marking run sets had_errors, and otherwise the two runs produce the same buffers *)
@@ -84,6 +84,16 @@ Check C11_passthrough_partial : forall A cfg ff p d deny hy k1 k2 w, bytes d -> 
 Print Assumptions C11_passthrough_partial.
 
 (* non-vacuity: a name with an error (both modes err, U+FFFD shown) and one without, in the model *)
+(* regenerated constants used by the marking sites: is_bidi threshold, joiner range, map_transitional table *)
+Theorem C11_consts :
+  T_IDNA_BIDI_BELOW = 1424 /\ T_IDNA_JOINER_LO = 8204 /\ T_IDNA_JOINER_HI = 8205 /\
+  T_IDNA_TRANS = [(223, [115; 115]); (7838, [115; 115]); (962, [963]); (8204, []); (8205, [])].
+Proof. exact idna_ranges. Qed.
+Check C11_consts :
+  T_IDNA_BIDI_BELOW = 1424 /\ T_IDNA_JOINER_LO = 8204 /\ T_IDNA_JOINER_HI = 8205 /\
+  T_IDNA_TRANS = [(223, [115; 115]); (7838, [115; 115]); (962, [963]); (8204, []); (8205, [])].
+Print Assumptions C11_consts.
+
 Example C11_premises_hold :
   to_ascii toy true [97; 45; 46; 98] DENY_STD3 HCheck DIgnore = Err /\
   to_unicode toy true [97; 45; 46; 98] DENY_STD3 HCheck = UI false [97; 65533; 46; 98] true /\
